@@ -45,6 +45,9 @@ func genCase(t *rapid.T) sigCase {
 	if len(a.Addrs) > 0 {
 		kinds = append(kinds, "addr")
 	}
+	if !a.HasEP {
+		kinds = append(kinds, "attach-ep", "attach-ep")
+	}
 	if len(a.EPs) > 0 {
 		kinds = append(kinds, "ctx", "override", "ep-id", "ep-metadata", "wrongkey", "wrongkey")
 		for _, e := range a.EPs {
@@ -250,6 +253,18 @@ func runCase(c sigCase) pbt.Result {
 	case "ep-metadata":
 		p := &ad.ExtendedProvider.Providers[m.Index]
 		p.Metadata = flipNonEmpty(p.Metadata, m.Pos, m.Bit)
+	case "attach-ep":
+		// an extended-provider list attached after signing (the ad signature does not cover it): entries
+		// that nobody signed for this ad, with or without the main provider, also on removal ads
+		other := keys[m.OtherKey]
+		junk, _ := record.Seal(&rawRec{domain: "indexer", codec: []byte("/indexer/ingest/extendedProviderSignature"), payload: []byte("unrelated payload")}, other.Priv)
+		jb, _ := junk.Marshal()
+		ep := &schema.ExtendedProvider{Override: m.Bit%2 == 0}
+		ep.Providers = append(ep.Providers, schema.Provider{ID: other.ID.String(), Addresses: []string{"/ip4/1.1.1.1/tcp/1"}, Signature: jb})
+		if m.Pos%2 == 0 {
+			ep.Providers = append(ep.Providers, schema.Provider{ID: ad.Provider, Signature: jb})
+		}
+		ad.ExtendedProvider = ep
 	case "transplant-main":
 		// the main provider's entry re-signed, same payload, by a key other than the ad signer's
 		for i := range ad.ExtendedProvider.Providers {
